@@ -21,9 +21,12 @@
   * `lines_in_range_and_ordered`  — `GM.Props.Blocks.LinesInRange src`: C05(c) with the order clause for EVERY node
                                     (`raw_lines_ordered`: the three raw kinds; `all_lines_ordered`).
   * `container_nodes_no_lines`    — Document / Blockquote / List / ListItem / ThematicBreak nodes have no lines.
+  * `list_shape`, `list_item_parent`, `store_hyps_core_run` — a child is a ListItem exactly when its parent is a List; the
+                                    four store facts of the end-to-end proof of C05 in one statement.
   NOT proved: everything about the driver WITH paragraph transformers (`runT`). See notes/status_wf0.md.
 -/
 import GM.Proof.BlocksClosedAll
+import GM.Proof.BlocksShape
 import GM.Props.Blocks
 
 namespace GM.Props.Wf0
@@ -113,6 +116,32 @@ theorem all_lines_ordered (src : Bytes) (s : St) (h : GM.Blocks.run src = .ok s)
 theorem container_nodes_no_lines (src : Bytes) (s : St) (h : GM.Blocks.run src = .ok s) :
     ∀ n ∈ s.nodes, noLinesKind n.kind = true → n.lines = [] :=
   run_no_lines src s h
+
+/-- **`list_shape`, every source**: in the final store of the block phase a child node is a ListItem exactly when its
+    parent is a List (children lists; `st.nodes.getD i default` is node `i`). "Children of a List are ListItems" is the
+    list invariant of the no-panic proof; "a ListItem only ever hangs under a List" holds because the one call that
+    attaches the node a parser has built (`parent.AppendChild`, parser.go:1003) attaches a FRESH node of the parser's
+    kind, and listItemParser.Open answers a node only when `parent` is a List (list_item.go:25-28). -/
+theorem list_shape (src : Bytes) (s : St) (h : GM.Blocks.run src = .ok s) :
+    ∀ i, ∀ c ∈ (s.nodes.getD i default).children,
+      ((s.nodes.getD c default).kind = .listItem ↔ (s.nodes.getD i default).kind = .list) :=
+  run_list_shape src s h
+
+/-- the same on parent pointers: a node with a parent is a ListItem exactly when that parent is a List -/
+theorem list_item_parent (src : Bytes) (s : St) (h : GM.Blocks.run src = .ok s) :
+    ∀ i p, (nd s i).parent = some p → ((nd s i).kind = .listItem ↔ (nd s p).kind = .list) :=
+  run_item_parent src s h
+
+/-- **the four store facts the end-to-end proof of C05 (`wfAst`) takes as hypotheses (`GM.E2E.StoreHypsCore`: `lines`,
+    `ord`, `noLines`, `listShape`), for the final store of `run`, every source** — stated here without importing the
+    end-to-end files; `OrdFrom` is `GM.Blocks.OrdFrom` (the recursion of `GM.E2E.ordFrom`). -/
+theorem store_hyps_core_run (src : Bytes) (s : St) (h : GM.Blocks.run src = .ok s) :
+    (∀ n ∈ s.nodes, ∀ t ∈ n.lines, 0 ≤ t.start ∧ t.start ≤ t.stop ∧ t.stop ≤ src.length ∧ 0 ≤ t.padding) ∧
+    (∀ n ∈ s.nodes, OrdFrom 0 n.lines) ∧
+    (∀ n ∈ s.nodes, (n.kind = .document ∨ n.kind = .list) → n.lines = []) ∧
+    (∀ i, ∀ c ∈ (s.nodes.getD i default).children,
+      ((s.nodes.getD c default).kind = .listItem ↔ (s.nodes.getD i default).kind = .list)) :=
+  GM.Blocks.store_hyps_core_run src s h
 
 /-- `InlineLinesWF0` in parts (GM.Proof.BlocksOrd.allInlineWF0_iff_parts), as a statement about the property -/
 theorem inline_wf0_reduction (src : Bytes) :
@@ -274,6 +303,12 @@ example : (match GM.Blocks.run (strBytes "-\t\ta\n\t\tb\n> ```\n> x\n> y\n<div>\
     | .ok st => (st.nodes.filter (fun n => isRaw n.kind && decide (2 ≤ n.lines.length))).length
     | .error _ => 0) = 3 := by decide +kernel
 example : GM.Blocks.checkLines (strBytes "-\t\ta\n\t\tb\n> ```\n> x\n> y\n<div>\nz\n") = "ok" := by decide +kernel
+
+/-- test: `list_shape` is not vacuous: a source with two lists (one nested in a quote) — the store has four ListItem
+    nodes, each with a parent -/
+example : (match GM.Blocks.run (strBytes "- a\n- b\n\n> 1. c\n> 2. d\n") with
+    | .ok st => (st.nodes.filter (fun n => n.kind == .listItem && n.parent.isSome)).length
+    | .error _ => 0) = 4 := by decide +kernel
 
 /-- test: `Inv` holds for the state the block phase starts in (the hypothesis of `close_blocks_keeps_order` is
     satisfiable) -/
